@@ -1099,6 +1099,10 @@ inline bool Transport::setReadMode(SessionId sid, ReadMode mode)
       return true;
     }
     buf = bufIt->second;
+    if (buf->closed)
+    {
+      return false; // session already closed: never push data to the callback after its close (bytes stay for receiveSync)
+    }
     // Construct the guard UNDER the fetch lock (its ctor sets flushing +
     // ++activeFlushes with no GC window) — increment and decrement owned by one
     // RAII object (L-2). It outlives this scope via the unique_ptr; its dtor
@@ -1119,6 +1123,10 @@ inline bool Transport::setReadMode(SessionId sid, ReadMode mode)
       if (_impl->shuttingDown)
       {
         return false;
+      }
+      if (buf->closed)
+      {
+        return false; // the close arrived mid-flush: stop delivering, the rest stays for receiveSync
       }
       if (!buf->data.empty())
       {
